@@ -199,6 +199,11 @@ def run(case, choices):
                 res.violate("C20:gid:%s:%s" % ("initgroups" if case["initgroups"] else "no-initgroups", spell),
                             "worker pid %d (%s) loaded the application with gids (real, effective, saved)=%r, configured gid %r "
                             "(initgroups=%s); %s" % (l["pid"], gen, l["gids"], want_gid, case["initgroups"], ctx()))
+            if case["initgroups"] and want_uid and want_uid not in sim.passwd and not changed and not fault:
+                # a numeric uid without a passwd entry has no supplementary groups of its own - and must not keep the master's
+                if not set(l["groups"]) <= {want_gid}:
+                    res.violate("C20:groups:no-passwd-entry", "worker pid %d runs as uid %d (no passwd entry) with initgroups=True and still has "
+                                "the supplementary groups %r of the master; %s" % (l["pid"], want_uid, l["groups"], ctx()))
             if case["initgroups"] and want_uid and want_uid in sim.passwd and not changed:
                 # (with only a user configured the primary group stays the master's, 0, and initgroups() adds it to the user's list)
                 exp = sorted(set(sim.passwd[want_uid][2]) | {want_gid})
